@@ -187,14 +187,13 @@ func build(s Spec) *engine.Scenario {
 		o.open = vw.OpenSockets("srv")
 	}
 	sc.Check = func(x *vrt.Exec) (string, bool, []*engine.Finding) {
-		fs := hk.Generic(x, hk.Opts{Leaks: true})
+		// only C02's own clauses: byte streams and end-of-stream; metrics, leaks and shutdown order
+		// belong to C15 / C18 and are checked there on the same worlds
+		fs := hk.Generic(x, hk.Opts{})
 		add := func(sig, format string, a ...any) {
 			fs = append(fs, &engine.Finding{Sig: sig, Msg: fmt.Sprintf(format, a...) + " spec=" + s.String()})
 		}
 		if len(fs) == 0 {
-			if p := hk.RecoveredPanics(); len(p) > 0 {
-				add("recovered-panic", "handler panicked (recovered): %v", p)
-			}
 			if !bytes.Equal(o.targetGot, up) {
 				add("up-stream-corrupt", "target received %d bytes, client sent %d (first difference at %d)", len(o.targetGot), len(up), firstDiff(o.targetGot, up))
 			}
@@ -206,21 +205,6 @@ func build(s Spec) *engine.Scenario {
 			}
 			if o.nconns != 1 {
 				add("target-conns", "target saw %d connections, want 1", o.nconns)
-			}
-			if o.status != "OK" {
-				add("status{"+o.status+"}", "relay that ran to completion reported status %s (order %v)", o.status, o.order)
-			}
-			if fmt.Sprint(o.order) != "[auth:"+key.ID+" closed:OK]" && o.status == "OK" {
-				add("metrics-order", "metric calls %v", o.order)
-			}
-			if o.status == "OK" && (o.recClientProxy != o.wireUp || o.recProxyTarget != int64(len(up)) || o.recTargetProxy != int64(len(down)) || o.recProxyClient != o.wireDown) {
-				add("byte-counters", "counters c>p=%d p>t=%d p<t=%d c<p=%d, wire c>p=%d p>t=%d p<t=%d c<p=%d", o.recClientProxy, o.recProxyTarget, o.recTargetProxy, o.recProxyClient, o.wireUp, len(up), len(down), o.wireDown)
-			}
-			if !o.serveOK {
-				add("serve-return", "StreamServe returned=%v with handlers running", o.serveOK)
-			}
-			if len(o.open) > 0 {
-				add("socket-leak", "server sockets still open at the end: %v", o.open)
 			}
 		}
 		devs := 0
